@@ -596,7 +596,7 @@ class Exec:
                         yield from outs
                         handled = True
                         break
-                    if any(exc_subclass(n, out.val.cls) for n in names):
+                    if any(exc_subclass(n, out.val.cls) and n not in getattr(out.val, "excluded", ()) for n in names):
                         raise Unsupported("handler for a subclass of a possibly raised class")
                 if not handled:
                     yield out
